@@ -13,18 +13,19 @@ pub static DEF: CheckDef = CheckDef {
     id: "C10",
     run,
     replay,
-    rule: "(a) write-target x probe matrix: every one of the 65536 addresses W is written (value different from what was read there before) on each of five cartridges (MBC1+RAM 8 and 128 banks, MBC1 8 KiB RAM, MBC3+RAM, ROM-only), in chunks of 64 writes spread over all regions, and after every single write all 65536 addresses are read back and compared with the reference decode model (models::bus): storage bytes hold the last value written to them and nothing else changed, ROM reads equal the image under the bank mapping of the controller model, echo / 0xFEA0-0xFEFF / unassigned I/O keep reading their constant, readable I/O registers return their defined writable bits. (b) proptest histories of up to 48 writes biased to region boundaries, bank registers and I/O registers, same full read-back after every write, shrunk on failure. (c) fetch view: get_executable_memory_slice (both builds) and the translator's get_executable_memory_segment against data reads for every start address in ROM (several mapped banks), work RAM and high RAM. Non-trivial = a write whose value differs from the previous content followed by a complete 65536-address probe; distinct by (cartridge, W) in (a) and by hash of the history in (b).",
+    rule: "(a) write-target x probe matrix: every one of the 65536 addresses W is written (value different from what was read there before) on each of six cartridges (MBC1+RAM 8 and 128 banks, MBC1 8 KiB RAM, MBC3+RAM 32 banks, MBC3+RAM 72 banks, ROM-only), in chunks of 64 writes spread over all regions, and after every single write all 65536 addresses are read back and compared with the reference decode model (models::bus): storage bytes hold the last value written to them and nothing else changed, ROM reads equal the image under the bank mapping of the controller model, echo / 0xFEA0-0xFEFF / unassigned I/O keep reading their constant, readable I/O registers return their defined writable bits. (b) proptest histories of up to 48 writes biased to region boundaries, bank registers and I/O registers, same full read-back after every write, shrunk on failure. (c) fetch view: get_executable_memory_slice (both builds) and the translator's get_executable_memory_segment against data reads for every start address in ROM (several mapped banks), work RAM and high RAM. Non-trivial = a write whose value differs from the previous content followed by a complete 65536-address probe; distinct by (cartridge, W) in (a) and by hash of the history in (b).",
     assumptions: &[
         "models::bus + models::mbc (written from the memory-map and controller documentation); no clock cycles are delivered, so device time stands still",
         "not asserted, as the property says: 0xFF01/0xFF02 reads, P1 bits 0-3 and 6-7, STAT bits 0-2 and 7, IF bits 5-7, TAC bits 3-7; what a write to LY or 0xFF46 makes that address read; initial contents and power-on register values (captured from the first observation)",
         "cartridge RAM is kept enabled (values written to 0x0000-0x1FFF get low nibble 0xA) and MBC3 RAM-bank selections stay within 0-3 (no RTC register), by construction of the generators",
         "a write to STAT or LYC may raise the STAT request bit in IF (not prescribed either way by C10)",
+        "on the 72-bank cartridge a selection beyond the last bank leaves 0x4000-0x7FFF unasserted (undocumented)",
     ],
     required_classes: &["w-rom0", "w-romN", "w-vram", "w-cart-ram", "w-wram", "w-echo", "w-oam", "w-unusable", "w-io", "w-hram", "w-ie", "fetch-rom", "fetch-wram", "fetch-hram", "generated-history", "bank-switch-then-probe"],
     exhaustive: true,
 };
 
-const CONFIGS: [(u8, u8, u8); 5] = [(0x03, 0x02, 0x03), (0x13, 0x04, 0x03), (0x00, 0x00, 0x00), (0x03, 0x06, 0x03), (0x02, 0x01, 0x02)];
+const CONFIGS: [(u8, u8, u8); 6] = [(0x03, 0x02, 0x03), (0x13, 0x04, 0x03), (0x00, 0x00, 0x00), (0x03, 0x06, 0x03), (0x02, 0x01, 0x02), (0x13, 0x52, 0x03)];
 
 fn make_rom(cfg: (u8, u8, u8)) -> RomImage {
     let mut rom = RomImage::new(cfg.0, cfg.1, cfg.2, 0);
@@ -292,7 +293,7 @@ fn run(rec: &mut Rec) {
             }
         }
     }
-    rec.exhaustive_part("write target W over all 65536 addresses x probe over all 65536 addresses, per cartridge (three cartridges completely in quick, five in thorough)");
+    rec.exhaustive_part("write target W over all 65536 addresses x probe over all 65536 addresses, per cartridge (three cartridges completely in quick, six in thorough)");
     // (b) generated histories
     for ci in 0..CONFIGS.len() {
         if rec.too_many() {
